@@ -152,6 +152,9 @@ Theorem C11_params_TDevice : forall n sus eff tr (text : list R) c,
   TDevice_init_accepts n sus eff tr text c = true <->
   0 <= sus <= 1 /\ eff <> 0 /\ 0 <= tr /\ length text = n /\ shape_ok n c /\ pall (fun x => 0 <= x) c.
 Proof. exact tdevice_init_range. Qed.
+Theorem C11_params_DeviceSet_equal_horizons : forall (id_ok : bool) (lens : list nat),
+  DeviceSet_init_accepts id_ok lens = true <-> id_ok = true /\ forall l, In l lens -> l = hd 0%nat lens.
+Proof. exact deviceset_init_range. Qed.
 Theorem C11_params_MFDeviceSet_one_directional : forall lb hb (flows : list string),
   MFDeviceSet_init_accepts lb hb flows = true <->
   flows <> [] /\ ~ (List.Exists (fun l => l < 0) lb /\ List.Exists (fun h => 0 < h) hb).
